@@ -111,6 +111,8 @@ func c01Progs() map[string]*Prog {
 
 func c01Units(tier string) []*Unit {
 	var us []*Unit
+	// an included Taskfile with two run-once tasks whose names end in the same segment (shared with C06)
+	us = append(us, c06IncludeUnit(tier))
 	progs := c01Progs()
 	for _, name := range sortedProgNames(progs) {
 		pg := progs[name]
